@@ -35,6 +35,8 @@ type Scenario struct {
 type Harness struct {
 	Threads []func()
 	Names   []string
+	// Chooser (optional) directs the schedule after the prefix (see vsched.Exec.Chooser)
+	Chooser func(e *vsched.Exec, enabled []int, from *vsched.Thread) int
 	// Check receives the finished execution; returns a violation or nil, and an outcome label.
 	Check   func(x *ExecInfo) (*Violation, string)
 	Cleanup func()
@@ -65,6 +67,7 @@ func RunSchedule(sc *Scenario, prefix []int) (*ExecInfo, *Violation, string, str
 	vsched.DropPendingSpawns()
 	h := sc.Setup() // goroutines the library starts during set-up are adopted by the execution below
 	e := vsched.NewExec(prefix)
+	e.Chooser = h.Chooser
 	var ths []*vsched.Thread
 	for i, fn := range h.Threads {
 		name := fmt.Sprintf("T%d", i)
